@@ -23,7 +23,7 @@ N = {'quick': 2500, 'thorough': 40000}
 
 PROP_FILES = ['theories/Properties/C05.v']
 COQ_TARGETS = ['theories/Properties/C05.vo', 'theories/C05/Corr.vo']
-CLOSURE = ['theories/C05', 'theories/Gen/Consts.v']
+CLOSURE = ['theories/C05', 'theories/Gen/Consts.v', 'theories/Gen/Layout.v']
 
 
 def tagname(t):
@@ -86,6 +86,30 @@ def main(chk):
             if mism:
                 chk.broken.append('correspondence c05e(%s): isEmptyValue of the %s build differs from its model on %d case(s), e.g. %s case id %d (%s)'
                                   % (label, label, len(mism), mism[0][0], mism[0][1], cdir))
+
+    # ---- field addressing: the offset the codec stores per field vs reflect's, and vs the model ----
+    exe = os.path.join(chk.bdir, 'c05o')
+    rc, o = vlib.sh(['go', 'build', '-tags', 'verif', '-o', exe, './cmd/c05o'], cwd=vlib.HARNESS, timeout=900)
+    if rc != 0:
+        chk.broken.append('harness cmd/c05o does not build: %s' % o.strip()[-300:])
+    else:
+        cdir = os.path.join(chk.bdir, 'cases_c05o')
+        summ, out = chk.run_harness(exe, ['-n', 60 if tier == 'quick' else 1500, '-cases', cdir], timeout=900)
+        if summ is None:
+            chk.broken.append('harness cmd/c05o crashed: %s' % out.strip()[-300:])
+        else:
+            chk.absorb(summ, label='c05o')
+            chk.absorb_failures(summ)
+            if ok_c:
+                okf, mism, errs = chk.coq_eval_cases(cdir)
+                if not errs:
+                    chk.cov['traces_validated_against_impl'] += summ.get('model_cases', 0) - len(mism)
+                chk.cov['model_mismatches'] += len(mism)
+                for e in errs:
+                    chk.broken.append('correspondence c05o: model evaluation failed: %s' % e)
+                if mism:
+                    chk.broken.append('correspondence c05o: the stored field offset differs from the model (Gen/Layout.v widths) on %d case(s), e.g. %s case id %d (%s)'
+                                      % (len(mism), mism[0][0], mism[0][1], cdir))
 
     # ---- variants ----
     exes = {}
@@ -186,7 +210,7 @@ def main(chk):
 
 MANIFEST = {
     'category': 'proof',
-    'technique': 'Coq proof on models of the safe/unsafe helper pair (each tied to its build by vm_compute correspondence) + differential run of all 8 build-tag variants on one seeded stream + regeneration diff of all generated files',
-    'text': 'Proved: the reflect-based and the memory-compare implementations of the omitempty emptiness test agree on every value inside an explicit structural guard, in both modes (C05_isempty_agree), and the guard is tight (C05_isempty_refuted: one witness per excluded class; that divergence is finding F05-1). Each model is run against the isEmptyValue of its own build. Whole-library variant agreement is decided differentially: the harness is built under all eight tag sets, run on one seeded stream of (format, options, type, value; typed, schema-less, pre-populated, same-shape, interface-held, narrowed and array-shaped destinations; truncated, bit-flipped, marker-substituted and all 256 one-byte inputs) and compared field by field; the in-tree generator is re-run and every generated file compared byte for byte. Partial: no theorem covers the monomorphiser or whole-library variant equivalence.',
+    'technique': 'Coq proof on models of the safe/unsafe helper pair and of unsafe field addressing (widths translated from the source on every run; each tied to its build by vm_compute correspondence) + differential run of all 8 build-tag variants on one seeded stream + regeneration diff of all generated files',
+    'text': 'Proved: the reflect-based and the memory-compare implementations of the omitempty emptiness test agree on every value inside an explicit structural guard, in both modes (C05_isempty_agree), and the guard is tight (C05_isempty_refuted: one witness per excluded class; that divergence is finding F05-1). Each model is run against the isEmptyValue of its own build. C05_field_addr / C05_field_widths: with the widths of structFieldInfoNode.offset and of the conversions that fill it, read from the current source by the translator, the address the unsafe build computes for a struct field equals the one reflect computes, for every offset below 2^32 (C05_field_addr_16_refuted: false for the 16-bit field of the pinned tree, finding F01-3); the stored offsets are compared with the offsets reflect reports and with the model on struct types with fields up to 16 MB in. Whole-library variant agreement is decided differentially: the harness is built under all eight tag sets, run on one seeded stream of (format, options, type, value; typed, schema-less, pre-populated, same-shape, interface-held, narrowed and array-shaped destinations; truncated, bit-flipped, marker-substituted and all 256 one-byte inputs) and compared field by field; the in-tree generator is re-run and every generated file compared byte for byte. Partial: no theorem covers the monomorphiser or whole-library variant equivalence.',
     'note': 'Trusted: Coq kernel; hand-written models of isEmptyValue (both builds; correspondence-checked); the differential harness and its deterministic value printer; the in-tree generator is executed, not modelled. Not proved: semantic preservation of gen_mono.go, fast-path templates vs reflection path (compared only on the explored stream).',
 }
